@@ -789,7 +789,11 @@ class OvldMC(type):
             mixins = [
                 v for v in ovlds[1:] if getattr(v, "_extend_super", False)
             ]
-            others = [v for v in values if v is not None and not is_ovld(v)]
+            # Plain definitions of the other bases (not what every class has
+            # anyway, like the __call__ or __init__ slots of type and object)
+            others = [
+                v for v in values if inspect.isfunction(v) and not is_ovld(v)
+            ]
             # A base marked extend_super extends what the other bases
             # define: overloaded methods before it, or plain ones anywhere
             extends_plain = (
